@@ -123,6 +123,7 @@ type reader struct {
 	backOut    []byte             // per back-channel write: 'a' / 'f' / 'e'
 	backRecs   []backRec          // what the server session's callback received
 	backSent   atomic.Int64       // UDP: back-channel datagrams the client's socket sent
+	backSet    sentSet            // UDP: the same, to find one datagram sent twice
 	refuseNext base.StatusCode    // (under harness.mu) answer the next PLAY / PAUSE of this reader with this status
 	sessionID  string             // from the Session header of the responses (library client)
 	keyMgmt    [][]mikeyEntry     // SETUP responses, in order: the (SSRC, ROC) pairs of the MIKEY CS-ID map
@@ -178,7 +179,10 @@ type harness struct {
 	relayArr    []aobs // UDP: datagrams the server's RTP socket read from the publisher
 	pkPub       []pktMeta
 	fpNoMedia   map[[3]uint32]int
-	pubSent     atomic.Int64       // relay over UDP: RTP datagrams the publisher socket sent
+	pubSent     atomic.Int64 // relay over UDP: RTP datagrams the publisher socket sent
+	pubSet      sentSet      // relay over UDP: the same, to find one datagram sent twice
+	srvDecode   []string     // decode errors reported to the server's handler (first few)
+	nSrvDecode  int
 	backMedia   *description.Media // back channel of the stream (client → server), nil: none
 	backFormat  format.Format
 	backSSRC    uint32
@@ -345,7 +349,12 @@ func (h *harness) OnStreamWriteError(ctx *gortsplib.ServerHandlerOnStreamWriteEr
 }
 
 func (h *harness) OnDecodeError(ctx *gortsplib.ServerHandlerOnDecodeErrorCtx) {
-	h.note("server decode error: %v", ctx.Error)
+	h.mu.Lock()
+	h.nSrvDecode++
+	if len(h.srvDecode) < 5 {
+		h.srvDecode = append(h.srvDecode, ctx.Error.Error())
+	}
+	h.mu.Unlock()
 }
 
 func (h *harness) OnPacketsLost(_ *gortsplib.ServerHandlerOnPacketsLostCtx) {}
@@ -850,7 +859,11 @@ func (rd *reader) doBack() {
 	if rd.c == nil || rd.backMedia == nil {
 		return
 	}
-	for k := 0; k < 25; k++ {
+	burst := rd.spec.BackBurst
+	if burst == 0 {
+		burst = 25
+	}
+	for k := 0; k < burst; k++ {
 		i := len(rd.backOut)
 		pkt := &rtp.Packet{Header: rtp.Header{Version: 2, PayloadType: backPT, SequenceNumber: uint16(1000 + i), Timestamp: uint32(i) * 160,
 			Marker: i%3 == 0, SSRC: 99}, Payload: rd.backPayload(i)}
@@ -1146,6 +1159,11 @@ func (h *harness) streamWrite(pubWid int, p pktMeta, pkt *rtp.Packet) {
 
 func (h *harness) pace(wid int) {
 	sc := h.sc
+	for _, b := range sc.Bursts {
+		if wid >= b[0] && wid+1 < b[0]+b[1] {
+			return // inside a burst: the next write follows at once
+		}
+	}
 	if sc.Pace > 0 && wid%sc.Pace == sc.Pace-1 {
 		time.Sleep(50 * time.Microsecond)
 	} else if sc.Mode == "racy" {
@@ -1188,6 +1206,10 @@ func (h *harness) startPublisher() error {
 			fs = append(fs, f)
 		}
 		nm := &description.Media{Type: md.Type, Formats: fs}
+		if sc.TLS && !sc.PubNoSAVP {
+			// (over TCP the client encrypts the media only when the announced media asks for it)
+			nm.Profile = headers.TransportProfileSAVP
+		}
 		h.pubMedia[nm] = m
 		ms = append(ms, nm)
 	}
@@ -1229,7 +1251,7 @@ func (h *harness) startPublisher() error {
 				return nil, fmt.Errorf("unexpected packet conn type %T", pc)
 			}
 			port := uc.LocalAddr().(*net.UDPAddr).Port
-			w := &pubPC{UDPConn: uc, sent: &h.pubSent, port: port}
+			w := &pubPC{UDPConn: uc, sent: &h.pubSent, set: &h.pubSet, port: port}
 			if port%2 == 0 && (sc.PubLoss > 0 || sc.PubDup > 0 || sc.PubReorder > 0) {
 				// (one injector per socket: a held datagram must leave from the socket it was written to)
 				w.faults = &faults{rng: newRng(sc.Seed, uint64(777+len(h.pubConns))), loss: sc.PubLoss, dup: sc.PubDup, reorder: sc.PubReorder}
